@@ -35,6 +35,8 @@ type Input struct {
 	GateTick  int    `json:"gate_tick"`
 	GateAfter int    `json:"gate_after"`
 	App       string `json:"app"`
+	// the spy reports every stack through ONE buffer that it overwrites in place between callbacks (as pyspy / rbspy do)
+	ReuseBuffer bool `json:"reuse_buffer"`
 }
 
 const (
@@ -67,6 +69,7 @@ type job struct {
 }
 
 type runState struct {
+	buf       [64]byte
 	mu        sync.Mutex
 	log       []entry
 	jobs      []job
@@ -148,7 +151,12 @@ func (s *fakeSpy) Snapshot(cb func([]byte, uint64, error)) {
 			v = 0
 		}
 		h.add(entry{kind: eSB, id: id, stack: stack, v: v, ok: err == nil})
-		cb([]byte(stack), v, err)
+		if h.in.ReuseBuffer {
+			n := copy(h.buf[:], stack) // the previous stack's bytes are overwritten in place
+			cb(h.buf[:n], v, err)
+		} else {
+			cb([]byte(stack), v, err)
+		}
 		h.add(entry{kind: eSA, id: id})
 	}
 }
@@ -384,7 +392,7 @@ func run(in Input) lib.Result {
 		NonTrivial: nearBoundary || postStop > 0 || afterStopJobs > 0 || in.StopMode == "gate",
 		Feat: map[string]interface{}{"rate_hz": in.RateHz, "interval_ms": in.IntervalMs, "ptype": in.PType, "stop_mode": in.StopMode,
 			"stop_within_one_tick_of_boundary": nearBoundary, "samples_after_stop_request": postStop > 0, "jobs_after_stop_job": afterStopJobs,
-			"jobs": len(jobs), "gap": gapClass, "procs": in.Procs, "goroutine_ended": ended},
+			"jobs": len(jobs), "gap": gapClass, "procs": in.Procs, "goroutine_ended": ended, "reuse_buffer": in.ReuseBuffer},
 		Obs: map[string]interface{}{"samples": nSamples, "jobs": len(jobs), "post_stop_samples": postStop, "jobs_after_stop_job": afterStopJobs,
 			"max_gap_us": int64(maxGap / time.Microsecond), "stop_phase_us": int64(phase / time.Microsecond), "log_tail_us": tail},
 	}
@@ -407,6 +415,7 @@ func gen(r *rand.Rand, idx int, tier string) Input {
 	default:
 		in.StopMode = "random"
 	}
+	in.ReuseBuffer = lib.Chance(r, 0.5)
 	if tier != "thorough" && in.Intervals > 6 {
 		in.Intervals = 3 + 3*r.Float64()
 	}
